@@ -84,17 +84,19 @@ def committed_at(pre_by_key, p, t):
     if l and l["start"] == t and l.get("async") and l["kind"] != "pess":
         # async-commit primary still locked: the secondaries decide
         mc = l.get("min_commit", 0)
+        nonasync = False
         for k in l.get("secs") or []:
             rk = pre_by_key.get(k)
             lk = rk and rk["lock"]
             if lk and lk["start"] == t and lk["kind"] != "pess":
                 mc = max(mc, lk.get("min_commit", 0))
+                nonasync = nonasync or not lk.get("async")
             else:
                 for w in (data_writes(rk) if rk else []):
                     if w["start"] == t:
                         return w["commit"]
                 return None
-        return mc
+        return None if nonasync else mc      # nonAsyncCommitLock fallback: forced status check rolls the primary back
     for w in data_writes(r):
         if w["start"] == t:
             return w["commit"]
@@ -257,7 +259,9 @@ def do_gc(cx, res):
     if res["err"] != "":
         return
     if c.get("mode") == "full":
-        cx.oracle(res.get("new_sp") == sp, res, "GC returns the new safe point", "GC returned %s for safe point %s" % (res.get("new_sp"), sp))
+        cx.oracle(res.get("new_sp") == sp, res, "C14_gc_clamped(GC resolves up to and returns min(expected, granted))", "GC returned %s for safe point %s" % (res.get("new_sp"), sp))
+        cx.ask(qid + "s", "\t".join(["gcsp", qid + "s", hexn(c["sp"]), hexn(c.get("barrier") or c["sp"])]),
+               lambda f: None if int(f[0], 16) == res.get("new_sp") else cx.mismatch(res, "KVStore.GC safe point vs RangeTask.gc_safe_point", res.get("new_sp"), f))
     n_old = 0
     bad_old, bad_rel, bad_new = [], [], []
     for r0, r1 in zip(pre, post):
@@ -300,6 +304,13 @@ def do_gc(cx, res):
         if rd["res"] != exp:
             bad_reads.append({"read": rd, "expected": exp})
     cx.oracle(not bad_reads, res, "C14_outcomes_kept(snapshot reads at ts >= safe point)", json.dumps(bad_reads[:3]))
+    # C14_reads_kept_pass: keys that held no lock read the same before and after the pass (real reads on both sides)
+    after = {(rd["key"], rd["ts"]): rd["res"] for rd in res.get("reads") or []}
+    changed = [{"before": rb, "after": after[(rb["key"], rb["ts"])]} for rb in res.get("reads_before") or []
+               if (rb["key"], rb["ts"]) in after and after[(rb["key"], rb["ts"])] != rb["res"]]
+    n_cmp = sum(1 for rb in res.get("reads_before") or [] if (rb["key"], rb["ts"]) in after)
+    cx.oracle(not changed, res, "C14_reads_kept_pass(snapshot reads at/above the safe point unchanged by the pass)", json.dumps(changed[:3]))
+    cx.stats["reads-before-after-compared"] += n_cmp
     # measured features
     evs = res.get("events") or []
     limit = c.get("limit") or 1024
@@ -386,8 +397,10 @@ def do_gc(cx, res):
                 answers, j = [], i + 1
                 while j < len(evs) and evs[j]["t"] == "checksec" and evs[j]["ts"] == t:
                     a = evs[j]
-                    answers.append("M" + hexn(a.get("commit", 0)) if a.get("err") == "missing" else "L" + "+".join(hexn(x) for x in a.get("mincs") or []))
+                    answers.append("M" + hexn(a.get("commit", 0)) if a.get("err") == "missing" else
+                                   "L" + "+".join(hexn(x) for x in a.get("mincs") or []) + ("!" if a.get("nonasync") else ""))
                     j += 1
+                forced = evs[j] if j < len(evs) and evs[j]["t"] == "check" and evs[j].get("force") and evs[j]["ts"] == t else None
                 nxt = next((x for x in evs[j:] if x["t"] in ("resolve", "resolveerr")), None)
                 sent = None
                 if nxt:
@@ -398,8 +411,14 @@ def do_gc(cx, res):
                     n_groups += 1
                     aq = "%sa%d" % (qid, i)
 
-                    def cb_ak(f, sent=sent, answers=answers, t=t):
-                        exp = int(f[1], 16) if f[0] == "ok" else None
+                    def cb_ak(f, sent=sent, answers=answers, t=t, forced=forced):
+                        if f[0] == "fallback":
+                            cx.stats["gc-feature:nonasync-fallback"] += 1
+                            exp = forced.get("commit", 0) if forced else None      # force-sync CheckTxnStatus decides
+                        else:
+                            exp = int(f[1], 16) if f[0] == "ok" else None
+                            if forced:
+                                exp = None                                          # a forced check without the model's fallback
                         if exp != sent:
                             cx.mismatch(res, "checkAllSecondaries decision vs RangeTask.check_all_secondaries (answers in delivery order)",
                                         {"txn": t, "answers": answers, "commit_ts_sent": sent}, f)
@@ -411,7 +430,17 @@ def do_gc(cx, res):
             cx.stats["gc-feature:async-decisions-validated"] += n_groups
     cx.ask(qid + "w", "\t".join(["wf", qid + "w", hexn(sp), store]), lambda f: cx.stats.update({"gc:wf-hypotheses-hold" if f[0] == "1" else "gc:wf-hypotheses-fail": 1}))
     # model: iteration trace (sequential runs only)
-    if c.get("mode", "custom") == "custom" and c.get("conc", 1) == 1:
+    ambiguous = False
+    for r in pre:
+        l = r["lock"]
+        if l and l.get("async") and l.get("secs"):
+            ks = [pre_by_key.get(k) for k in l["secs"]]
+            locked = [x["lock"] for x in ks if x and x["lock"] and x["lock"]["start"] == l["start"] and x["lock"]["kind"] != "pess"]
+            if len(locked) < len(ks) and any(not x.get("async") for x in locked):
+                ambiguous = True    # missing + plain lock: whether the fallback fires depends on the region grouping; the outcome is a rollback either way
+    if ambiguous:
+        cx.stats["gc:trace-skipped-fallback-ambiguous"] += 1
+    if c.get("mode", "custom") == "custom" and c.get("conc", 1) == 1 and not ambiguous:
         calls = gc_oracles_from_events(evs)
         if any(o.endswith(":N") and tr[i][2] for _, _, os_, tr in calls for i, o in enumerate(os_)):
             cx.stats["gc-feature:rescan-after-region-change"] += 1
@@ -443,9 +472,9 @@ def do_gc(cx, res):
 
 
 def do_del(cx, res):
-    c = res["case"]; qid = "d%d" % c["id"]
+    c = res["case"]; qid = ("ud%d" if c.get("backend") == "unistore" else "d%d") % c["id"]
     s, e = c["s"], c["e"]
-    cx.stats["del:" + c.get("class", "")] += 1
+    cx.stats[("uni:" if c.get("backend") == "unistore" else "del:") + c.get("class", "")] += 1
     cx.oracle(res["err"] == "", res, "C14_delete_range_exact(task succeeds)", "DeleteRangeTask failed: " + res["err"])
     if res["err"] != "":
         return
